@@ -284,12 +284,14 @@ theorem name_create_applies_exactly (c : Ctx) (w : World) (bp : Nat) (tx : Tx) (
   nameCreate_effects rfl ht hr hg hne hs
 
 /-- **`v1updateName n to`**: the name now points to `to` and is owned by `to`'s creator if `to` is a contract,
-by `to` otherwise; the price is paid as for a creation. Success implies the sender owned the name and the
-name was already visible in the last committed block. (`payNameEffects`) -/
+by `to` otherwise; the price is paid as for a creation. Success implies the tx was sent under the name itself
+or by (the address of) its owner, and the name was already visible in the last committed block.
+(`payNameEffects`) -/
 theorem name_update_applies_exactly (c : Ctx) (w : World) (bp : Nat) (tx : Tx) (n : Nat) (to : Addr)
     (ht : tx.type = .governance) (hr : tx.recipient = some aName) (hg : tx.gov = .nameUpdate n to)
     (hne : tx.sender ≠ aName) (hs : (executeTx c w bp tx).outcome = .success) :
-    c.namePrice ≤ tx.amount ∧ tx.amount ≤ w.bal tx.sender ∧ w.ownerOf n = some tx.sender ∧ (mget w.namesInit n).isSome ∧
+    c.namePrice ≤ tx.amount ∧ tx.amount ≤ w.bal tx.sender ∧
+    (tx.acctName = some n ∨ (tx.acctName = none ∧ w.ownerOf n = some tx.sender)) ∧ (mget w.namesInit n).isSome ∧
     (executeTx c w bp tx).w =
       payNameEffects { w with names := mset w.names n ((mget w.creator to).getD to, to) } (nameBeneficiary w)
         tx.sender tx.amount tx.nonce ∧
